@@ -74,9 +74,11 @@ def _reset_config():
 _BASE_CACHE = {}
 
 
-def _solo(w, i, force_depth=None, coerce_off=()):
+def _solo(w, i, force_depth=None, coerce_off=(), force_lazy=False):
     """Outcome of call i run alone on fresh objects (no tracing)."""
     _reset_config()
+    if force_lazy:
+        w = dict(w, calls=[dict(c, lazy=True) for c in w["calls"]])
     objs = work.Objects(w, only_call=i, coerce_off=coerce_off)
     fn = objs.call(i, force_depth=force_depth)
     try:
@@ -165,6 +167,29 @@ def _explain(w, i, observed, base, feats, interfered):
                 cache[k] = canon(_solo(w, i, force_depth=d))
             if cache[k] == obs:
                 return "depth-explained", {"as_if_depth": d}
+        # the depth seen by the call changed WHILE it ran: every individual check was run or skipped according to
+        # the depth at its own time, so the errors are a mix of the single-depth error sets
+        per_depth = []
+        for d in DEPTHS:
+            k = ("depth-lazy", i, d)
+            if k not in cache:
+                cache[k] = _solo(w, i, force_depth=d, force_lazy=True)
+            per_depth.append(cache[k])
+        sets = [_entries(o) for o in per_depth]
+        mine = _entries(observed)
+        if mine is not None and all(x is not None for x in sets):
+            union = set().union(*sets)
+            inter = set(sets[0]).intersection(*sets[1:])
+            ok_values = [canon(o["value"]) for o in per_depth + [base["solo"][i]] if o.get("k") == "ok"]
+            if observed.get("k") == "ok":
+                if not inter and canon(observed["value"]) in ok_values:
+                    return "depth-mixed-explained", {"as_if": "every failing check skipped at its own time"}
+            elif observed.get("k") == "SchemaErrors":
+                if set(mine) <= union and inter <= set(mine):
+                    return "depth-mixed-explained", {"as_if": "subset of the single-depth error sets"}
+            elif observed.get("k") == "SchemaError" and not w["calls"][i].get("lazy"):
+                if mine[0] in union:
+                    return "depth-mixed-explained", {"as_if": "first error among the checks not skipped"}
     spec = w["schemas"][w["calls"][i]["s"]]
     comps = work.coerce_components(spec)
     if comps and "schema-attrs" in interfered and spec["be"] == "pd":
@@ -176,6 +201,22 @@ def _explain(w, i, observed, base, feats, interfered):
             if cache[k] == obs:
                 return "coercion-skipped", {"as_if_coerce_off": list(sub)}
     return "unexplained", {}
+
+
+def _entries(o):
+    """Error entries of an outcome as canonical strings (None: not a validation verdict)."""
+    def key(e):
+        e = dict(e)
+        e.pop("msg", None)  # the text of a lazily collected error may carry extra context
+        return canon(e)
+
+    if o.get("k") == "ok":
+        return []
+    if o.get("k") == "SchemaErrors":
+        return [key(e) for e in o["errors"] if isinstance(e, dict)]
+    if o.get("k") == "SchemaError":
+        return [key(o["error"])]
+    return None
 
 
 # -------------------------------------------------------------------------- evaluate
@@ -269,16 +310,25 @@ def evaluate(case):
 # ------------------------------------------------------------------ known findings
 
 
+def _preempted_in(disc, window, at_least):
+    """Number of preemptions of the execution that happened inside the given window kind."""
+    pre = (disc.detail or {}).get("preemptions") or []
+    return sum(1 for p in pre if window in p.get("windows", ())) >= at_least
+
+
 @known.finding("C07/shared-pandas-schema-coerce")
 def _(family, case, disc):
     f = work.features(case["workload"])
     if not f["pd_override"]:
         return False
     if disc.kind == "outcome-differs:coercion-skipped":
-        return True
-    # enter/enter/exit/exit order of two overrides leaves the second thread's snapshot (coerce=False) installed
-    return disc.kind == "schema-state-changed:component-coerce" and \
-        disc.detail["schema"] in f["shared_pd"]
+        # trigger: shared pandas schema with component coerce; symptom: the call behaves as if coerce were off,
+        # after a preemption inside run_schema_component_checks
+        return _preempted_in(disc, "pd-component-override", 1)
+    # enter/enter/exit/exit order of two overrides leaves the second thread's snapshot (coerce=False) installed:
+    # needs two preemptions inside the window (a sequential or single-preemption leak is something else)
+    return disc.kind == "schema-state-changed:component-coerce" and disc.detail["schema"] in f["shared_pd"] \
+        and _preempted_in(disc, "pd-component-override", 2)
 
 
 @known.finding("C07/global-config-context")
@@ -286,7 +336,10 @@ def _(family, case, disc):
     f = work.features(case["workload"])
     if not f["cfg_writer"]:
         return False
-    return disc.kind in ("outcome-differs:depth-explained", "config-leak:validation_depth")
+    if disc.kind in ("outcome-differs:depth-explained", "outcome-differs:depth-mixed-explained"):
+        return True  # _explain already requires that the thread resumed with a changed context config
+    # stale override left installed: enter/enter/exit/exit, i.e. two preemptions with a config_context open
+    return disc.kind == "config-leak:validation_depth" and _preempted_in(disc, "config-context", 2)
 
 
 # ------------------------------------------------------------------------ workloads
@@ -439,7 +492,7 @@ def enum_single(tier):
 
 def enum_double(tier):
     seed = int(os.environ.get("VERIF_SEED", "1") or 1)
-    qs = (3, 30) if tier == "quick" else (2, 7, 25, 80, 200)
+    qs = (5, 40, 160) if tier == "quick" else (2, 7, 25, 80, 200)
     n_p = 16 if tier == "quick" else 90
     for w in _tier_workloads(tier):
         steps = _steps(w)
@@ -522,6 +575,10 @@ def _gen_workload(draw):
             if f == "check":
                 v[-1] = _BAD_CELL[c["dt"]]
             elif f == "wrong-dtype":
+                if spec["be"] == "pl" and (c.get("coerce") or spec.get("coerce")):
+                    # a failing polars coercion under SCHEMA_ONLY surfaces only at collect() (recorded under C06);
+                    # with a depth that changes mid-call the outcome is not a mix of single-depth outcomes
+                    continue
                 cols[c["n"]] = _WRONG_DTYPE[c["dt"]](v)
             elif f == "needs-coerce" and _NEEDS_COERCE[c["dt"]]:
                 cols[c["n"]] = _NEEDS_COERCE[c["dt"]](v)
